@@ -83,8 +83,8 @@ func genTrial(prop, variant string, seed uint64, i int) TrialCfg {
 		if r.Chance(1, 4) {
 			c.Mix[KGet] = 5
 		}
-		if r.Chance(1, 4) {
-			c.Churn = 200 + r.Intn(1500)
+		if r.Chance(1, 4) || (c.SizeKind == 0 && r.Chance(1, 3)) {
+			c.Churn = 200 + r.Intn(1500) // (an unbounded cache keeps the churn keys: its table really grows)
 		}
 		if prop != "C06" && r.Chance(1, 3) {
 			// expiry on top of the size bound: entries that expired but were not swept are written over,
@@ -132,6 +132,9 @@ func genTrial(prop, variant string, seed uint64, i int) TrialCfg {
 		c.Exec = r.Intn(3)
 	}
 	c.Procs = []int{0, 0, 2, 4, 3, 5, 7}[r.Intn(7)] // parallel table copies split by GOMAXPROCS: also non powers of two
+	if c.Churn > 0 && c.SizeKind == 0 && r.Chance(1, 2) {
+		c.Procs = []int{3, 5, 6, 7}[r.Intn(4)] // a growing table with a chunk count that does not divide its length
+	}
 	return c
 }
 
